@@ -1,5 +1,6 @@
 import Drv.Json
 import Spec.Diff
+import Model.Diff.DiffV
 namespace Drv.Diff
 open Lean Model.Diff Spec.Diff
 
@@ -114,6 +115,18 @@ def mutationOfJson (j : Json) : Option Mutation := do
   | "dropFK" => pure (.dropFk t (← getStr j "n"))
   | _ => none
 
+def verdictsOfJson (j : Json) (k : String) : Verdicts :=
+  (getArr j k).filterMap (fun e =>
+    match e with
+    | .arr a =>
+      match a[0]?.bind asStr?, a[1]?.bind asStr?, a[2]? with
+      | some t, some c, some (Json.bool b) => some (t, c, b)
+      | _, _, _ => none
+    | _ => none)
+
+/-- verdicts of the comparison callables (absent = the callable answers None / no callable) -/
+def overridesOfJson (j : Json) : Overrides := { ty := verdictsOfJson j "ctOver", dflt := verdictsOfJson j "cdOver" }
+
 def cfgOfJson (j : Json) : Cfg := { compareType := getBoolD j "ct" true, compareDefault := getBoolD j "cd" true }
 
 def dcolToJson (c : DCol) : Json :=
@@ -170,15 +183,16 @@ def handle (op : String) (j : Json) : Option Json :=
     | _ => some (errJ "bad-default")
   | "diff.diff" =>
     match schemaOfJson (getObj j "a"), schemaOfJson (getObj j "b") with
-    | some a, some b => some (obj [("ops", opsToJson (diff (cfgOfJson j) (reflect (createAll a)) b))])
+    | some a, some b => some (obj [("ops", opsToJson (diffV (overridesOfJson j) (cfgOfJson j) (reflect (createAll a)) b))])
     | _, _ => some (errJ "bad-schema")
   | "diff.converge" =>
     match schemaOfJson (getObj j "a"), schemaOfJson (getObj j "b") with
     | some a, some b =>
       let cfg := cfgOfJson j
-      let ops := diff cfg (reflect (createAll a)) b
+      let ov := overridesOfJson j
+      let ops := diffV ov cfg (reflect (createAll a)) b
       let db := applyAll (createAll a) ops
-      some (obj [("ops", opsToJson ops), ("second", opsToJson (diff cfg (reflect db) b)),
+      some (obj [("ops", opsToJson ops), ("second", opsToJson (diffV ov cfg (reflect db) b)),
                  ("db", Json.arr (db.map dtableToJson).toArray)])
     | _, _ => some (errJ "bad-schema")
   | "diff.spec_quiet" =>
